@@ -5,13 +5,16 @@ import os
 import random as pyrandom
 
 import core
-from search.common import drive
+from search.common import drive, net_zero, sparse_result
 
 
 def gen(rng):
     kind = rng.choice(["bloom", "ondisk", "cbf", "expanding", "rotating", "cms", "cmean", "hh", "st", "cuckoo", "ccf", "qf"])
     keys = ["k%d" % rng.randrange(2000) for _ in range(rng.randint(1, 12))]
-    return {"kind": kind, "est": rng.choice([1, 2, 3, 5, 12]), "fpr": rng.choice([0.3, 0.1, 0.05]), "keys": keys, "adds": [rng.choice(keys) for _ in range(rng.randint(0, 30))], "probes": keys + ["absent%d" % i for i in range(3)], "seed": rng.randrange(2**32)}
+    return {"kind": kind, "est": rng.choice([1, 2, 3, 5, 12]), "fpr": rng.choice([0.3, 0.1, 0.05]), "keys": keys, "adds": [rng.choice(keys) for _ in range(rng.randint(0, 30))], "probes": keys + ["absent%d" % i for i in range(3)], "seed": rng.randrange(2**32),
+            # a reachable state in which elements_added is 0 although cells are set (sparse intersection result,
+            # sketch whose additions and removals cancel): counters are not a summary of the cells
+            "twist": rng.random() < 0.35}
 
 
 def snapshot(kind, obj):
@@ -73,8 +76,15 @@ def check(case):
                 return None
             for k in case["adds"]:
                 obj.add(k)
+            if case.get("twist"):
+                if kind in ("bloom", "cbf"):
+                    got = sparse_result(make, tag=str(case["seed"] % 7))
+                    if got is not None:
+                        obj = got[0]
+                elif kind in ("cms", "cmean", "st"):
+                    net_zero(obj)
             # half of the cases observe a structure that was exported and loaded back (reachable state too)
-            if case["seed"] % 2 == 0 and kind not in ("qf", "ondisk"):
+            if case["seed"] % 2 == 0 and kind not in ("qf", "ondisk") and not (case.get("twist") and kind == "st"):
                 cls = type(obj)
                 kw = {}
                 if kind == "rotating":
